@@ -450,7 +450,10 @@ PROPS["C15"] = {
                    "across at least three growth steps per history (debug: 2 KiB steps; release: ~60 KiB events across "
                    "4 MiB steps), a fresh reference for the same offset is obtained and compared by address - the stale "
                    "reference is never read through - and on a mismatch the old range is looked up in /proc/self/maps; "
-                   "at equal addresses the bytes are compared with the recorded copy."),
+                   "at equal addresses the bytes are compared with the recorded copy. The workload mixes plain notes with "
+                   "stores that replace or delete referenced events, explicit removals, and 'tail' steps in which the "
+                   "referenced event is the newest thing in the map when it is replaced or removed and further events "
+                   "are appended afterwards (space of a removed event must not be handed out again)."),
     "level_note": "ASan/valgrind/Miri cannot see munmap-based dangling, hence the address/maps oracle; whether mremap moves the mapping depends on the address-space layout of the run",
     "legs": lambda tier: both("c15", timeout=3600 if tier == "thorough" else 600),
     "rule": ("histories of 60 (debug) / 230 (release) stores with up to 40 tracked references; distinct = hash of "
